@@ -339,8 +339,9 @@ PROPS = {
         "rule": "seeded (formula, variable, term) triples: the variable mostly occurs in the formula, terms sort-compatible (1/12 deliberately not: expected panic), "
                 "small name pools so that binders reuse the substituted name / name variables of the term / several per block + corpus/substitute.txt; "
                 "Formula::substitute vs Lean `Formula.subst` (+ panic predicate), exact tree equality",
-        "level_text": "Partial: substitution lemma proved for terms and atoms unconditionally and for formulas under NoRename (no binder in scope occurs in the term); "
-                      "the renaming case of the (fixed) implementation is tied to the model by exact correspondence and the full statement SubstituteCorrect is stated but not yet proved. "
+        "level_text": "Full except one corner: substitute_correct / substitute_correct_classical prove the substitution lemma for every formula whose quantifier blocks bind no variable twice (NodupBinders), "
+                      "every variable and sort-compatible term, every interpretation, world and assignment, INCLUDING the renaming of captured binders with the names the real fresh-name search picks "
+                      "(fresh_binder_not_taken by pigeonhole); substitute_fv bounds the free variables; the corner `exists X X ...` (same variable twice in one block) is covered by correspondence only. "
                       "Two genuine defects were repaired (fix: b9b9933).",
         "level_note": PROOF_NOTE,
         "technique": "Lean 4 proof (substitution lemma by induction on fuel/depth, binder lists characterised by sets) + differential correspondence",
